@@ -34,9 +34,15 @@ def default_world(**kw):
 
 
 def install(w):
+    """The simulated device takes the place of ledgerblue's transport factory, both where the
+    middleware imported it to and at its source (so that the code may reach it either way)."""
     g = get_dongle(w)
     hd.getDongle = g
     hdt.getDongle = g
+    import ledgerblue.comm
+    import ledgerblue.commTCP
+    ledgerblue.comm.getDongle = g
+    ledgerblue.commTCP.getDongle = g
 
 
 def stack(w, v1=False, pin=None, init=True):
@@ -45,7 +51,15 @@ def stack(w, v1=False, pin=None, init=True):
     dongle = hd.HSM2Dongle(False)
     p = (HSM1ProtocolLedger if v1 else HSM2ProtocolLedger)(pin, dongle)
     if init:
-        p.initialize_device()
+        tried = w.conn + sum(1 for e in w.log if e[0] == "connect_fail")
+        try:
+            p.initialize_device()
+        except BaseException:
+            if w.conn + sum(1 for e in w.log if e[0] == "connect_fail") == tried:
+                from .core import HarnessError
+                raise HarnessError("the code under test did not reach the simulated transport "
+                                   "(it no longer obtains its device through getDongle?)")
+            raise
     return p
 
 
@@ -61,8 +75,9 @@ def serve_line(h, line):
     try:
         h.handle("verif", io.BytesIO(line + b"\n"), wf)
     except BaseException as e:   # noqa - includes the handler's shutdown signals
-        if isinstance(e, (KeyboardInterrupt, SystemExit, MemoryError)):
-            raise
+        if isinstance(e, (KeyboardInterrupt, SystemExit, MemoryError)) or \
+                type(e).__name__ in ("CaseTimeout", "Timeout", "Dead"):
+            raise        # the harness's own signals (watchdogs, simulated crash)
         exc = e
     return wf.getvalue(), exc
 
@@ -138,6 +153,9 @@ def nominal_requests_v1():
 def check_sim(w):
     """A bug inside the simulated device must never be mistaken for behaviour of the code under
     test: it is a harness error."""
-    if w.sim_errors:
-        from .core import HarnessError
+    from .core import HarnessError
+    if w is not None and w.sim_errors:
         raise HarnessError("simulated device raised: %s" % w.sim_errors[0])
+    import bitcoin.core
+    if getattr(bitcoin.core, "SHIM_MISSING", None):
+        raise HarnessError("the python-bitcoinlib stand-in lacks %s" % bitcoin.core.SHIM_MISSING[0])
